@@ -98,7 +98,7 @@ package internal
 //@   ensures [C01,C12,C02,C11] every-reader-depends-on-the-writer-of-what-it-reads: implies(waitCalled, depsCoverReaders)
 //@   ensures [C11] jobs-depend-only-on-providers-of-their-inputs: implies(waitCalled, depsOnlyProviders)
 //@   ensures [C02,C05,C06] every-job-enqueued-once-and-wait-called: waitCalled && everyJobEnqueuedOnce
-//@   ensures [C09] directive-context-passed-to-enqueue-and-wait: directiveCtxEverywhere
+//@   ensures [C09,C04,C07] directive-context-passed-to-enqueue-and-wait: directiveCtxEverywhere
 //@   ensures [C08,C03] scheduler-params-are-the-hoisted-arguments: schedParamsOK
 //@   ensures [C18] tasks-list-holds-every-task-once: tasksListComplete
 //@   ensures [C07,C02] success-writes-each-result-from-its-provider-cell: implies(waitNil, result == nil && nResultStores == nResultTargets && resultStoresFromCellOfPointeeType && !resultStoreBeforeWait)
@@ -116,7 +116,7 @@ package internal
 //@   ensures [C12] no-shared-cells-written-twice: singleWriter
 //@   ensures [C12] ran-flag-is-atomic: ranIsAtomic
 //@   ensures [C10,C05,C06] every-job-enqueued-once-and-wait-called: waitCalled && everyJobEnqueuedOnce
-//@   ensures [C09] directive-context-passed-to-enqueue-and-wait: directiveCtxEverywhere
+//@   ensures [C09,C04,C07] directive-context-passed-to-enqueue-and-wait: directiveCtxEverywhere
 //@   ensures [C08,C03] scheduler-params-are-the-hoisted-arguments: schedParamsOK
 //@   ensures [C18] tasks-list-holds-every-task-once: tasksListComplete
 //@   ensures [C10,C07] success-returns-nil: implies(waitNil, result == nil)
